@@ -46,7 +46,7 @@ def make_text(rng, cls, i):
     if cls == "none":
         return None
     if cls == "ascii":
-        return base + rng.choice(["", " event", " A-b_c", " 100%", " x^2 ~ y"])
+        return base + rng.choice(["", " event", " A-b_c", " 100%", " x^2 ~ y", "  two  spaces ", " trailing ", "\ttab"])
     if cls == "xml":
         return base + rng.choice([" <b>&amp;</b>", " a<b & c>d", ' "q" \'s\'', " ]]> <!-- x -->", " &lt;"])
     if cls == "accent":
